@@ -30,7 +30,9 @@ theorem gen_httpSigMatch (s : HttpSig) (minor : Nat) (ph : List Hdr) : Gen.httpS
        | cons a as ih =>
          simp only [List.filter_cons, List.any_cons]
          cases (ph.map fun x => lower x.name).contains a <;> simp_all
-     simp only [optInt_beq_wild, hv, ha, gen_headersMatch])
+     first
+     | (simp only [optInt_beq_wild, hv, ha, gen_headersMatch]; done)
+     | (simp only [optInt_beq_wild, optInt_bne_wild, optInt_bne_cast, hv, ha, gen_headersMatch]; grind))
 
 theorem gen_findHttpLoop (recs : List HttpRec) (minor : Nat) (ph : List Hdr) (l : List HttpRec) (g : Option HttpRec) :
     Gen.findHttpMatch_loop0 recs minor ph l g = findHttpLoop minor ph l g := by
